@@ -26,3 +26,30 @@ def rewriteOf (fl : Bytes → Bytes) (ownWriter : Bool) (m : Meta) (coord : Byte
     trails := [], dxTrails := [] }
 
 end Header
+
+namespace Header
+open Py Taste
+
+/-- the in-plane part of one physical box -/
+def box2D (fl : Bytes → Bytes) (cx cy : Nat) (b : List (Bytes × Bytes)) : List (Bytes × Bytes) :=
+  [cx, cy].map fun c => let p := b.getD c ([], []); (fl p.1, fl p.2)
+
+/-- the global Header of a plotfile-format slice (`write_2d_slice_global_header`): from the reader's metadata of the 3D
+    input, the in-plane axes `cx`, `cy`, the names of the sliced fields and, per level, the numbers of the boxes the plane
+    meets -/
+def slice2D (fl : Bytes → Bytes) (m : Meta) (coord : Bytes) (names : List Bytes) (cx cy : Nat) (sel : List (List Nat)) : HData :=
+  let n := (m.limitLevel + 1).toNat
+  { version := m.version, names := names, ndims := 2, time := fl m.time,
+    geoLo := [fl (m.geoLo.getD cx []), fl (m.geoLo.getD cy [])],
+    geoHi := [fl (m.geoHi.getD cx []), fl (m.geoHi.getD cy [])],
+    factors := m.factors.take (n - 1),
+    gridHi := (m.gridSizes.take n).map fun g => [g.getD cx 0 - 1, g.getD cy 0 - 1],
+    steps := m.steps.take n,
+    dx := (m.dx.take n).map fun d => [fl (d.getD cx []), fl (d.getD cy [])],
+    coordLine := coord,
+    levels := (List.range n).map fun lv =>
+      { boxes := (sel.getD lv []).map fun i => box2D fl cx cy ((m.boxes.getD lv []).getD i []),
+        timeTok := fl m.time, stepLine := intBytes (m.steps.getD lv 0), dir := levelDir lv, tail := "Cell".toUTF8.toList },
+    trails := [], dxTrails := [] }
+
+end Header
